@@ -22,7 +22,7 @@ ASSUME = ["ref/gkdi.py structure codecs calibrated on the captured structures in
 BOUND = {"quick": "pairs over reduced alphabets", "thorough": "pairs over the full alphabets, triples for the key identifier"}
 
 U32 = [0, 1, 31, 2**31 - 1, 2**31, 2**32 - 1]
-STRS = ["", "a", "SP800_108_CTR_HMAC", "dömäin", "\U0001d521.test", "x" * 255, "\ufeffbom.test", "\ufffeab", "a\x00b", "\udbff\udfff".encode("utf-16", "surrogatepass").decode("utf-16") + "z"]
+STRS = ["", "a", "SP800_108_CTR_HMAC", "sha256", "Sha384", "SHA256 ", "dh", "Dh", "ecdh_p256", "sp800_108_ctr_hmac", "\u017fha512", "SHA\u2075\u00b9\u00b2", "DOMAIN.TEST", "Domain.Test", "I\u0307stanbul.test", "\u0131.test", "dömäin", "\U0001d521.test", "x" * 255, "\ufeffbom.test", "\ufffeab", "a\x00b", "\udbff\udfff".encode("utf-16", "surrogatepass").decode("utf-16") + "z"]
 BYTES = [b"", b"\x01", bytes(range(63)), bytes(range(64)), bytes(range(65))]
 UUIDS = [uuid.UUID(int=0), uuid.UUID("2e1b932a-4e21-ced3-0b7b-8815aff8335d"), uuid.UUID(int=2**128 - 1)]
 
